@@ -1,6 +1,7 @@
 package zcnsc
 
 import (
+	"0chain.net/core/sortedmap"
 	"0chain.net/smartcontract/stakepool"
 	"encoding/json"
 	"errors"
@@ -50,7 +51,8 @@ type GlobalNode struct {
 }
 
 func (gn *GlobalNode) UpdateConfig(cfg *config.StringMap) (err error) {
-	for key, value := range cfg.Fields {
+	for _, key := range sortedmap.NewFromMap(cfg.Fields).GetKeys() {
+		value := cfg.Fields[key]
 		switch key {
 		case MinMintAmount:
 			amount, err := strconv.ParseFloat(value, 64)
